@@ -421,6 +421,17 @@ struct Agg
 /// has no stderr capture, a one-shot child has, so the fine classification may differ
 static std::string norm_cls(const Outcome & o) { return (o.cls == "crash" || o.cls == "sanitizer" || o.verdict == "crash") ? "process-death" : o.cls; }
 
+/// A run that ends without delivering a verdict ends in one of three ways: killed by the wall-clock backstop (hang), by a
+/// signal, or by a sanitizer. A runaway loop shows as any of them depending on what it runs into first (the backstop after
+/// N seconds, a counter overflowing after 2^31 rounds, memory exhaustion): two such outcomes, one of them a hang, are the
+/// same observation. (Two deaths with different signatures are not: that is how heap-layout-dependent crashes look.)
+static bool no_verdict(const Outcome & o) { return o.cls == "hang" || o.cls == "crash" || o.cls == "sanitizer" || o.verdict == "crash" || o.verdict == "hang"; }
+static bool same_observation(const Outcome & a, const Outcome & b)
+{
+  if (a.cls == b.cls && a.sig == b.sig && a.trace == b.trace) return true;
+  return no_verdict(a) && no_verdict(b) && (a.cls == "hang" || b.cls == "hang");
+}
+
 struct Suspect { std::string suite; u64 idx; Outcome o; std::vector<std::pair<std::string, u64>> hist; };
 
 struct Found { std::string prop, cls, sig, detail, replay; int ops_before, ops_after, shrink_tests; };
@@ -616,7 +627,7 @@ static int cmd_check(std::map<std::string, std::string> & args)
     Plan plan = s->gen(seed, sp.idx, ctx);
     double to = std::max(run_timeout, 5.0);
     Outcome a = run_fresh(plan, ctx, to), b = run_fresh(plan, ctx, to);
-    bool repro = a.violated() && b.violated() && a.cls == b.cls && a.sig == b.sig && a.trace == b.trace && norm_cls(a) == norm_cls(sp.o);
+    bool repro = a.violated() && b.violated() && same_observation(a, b) && (norm_cls(a) == norm_cls(sp.o) || (no_verdict(a) && no_verdict(sp.o)));
     if (!repro && !sp.hist.empty() && !(a.violated() || b.violated())) {
       // the verdict may depend on process-wide state left by the runs this worker executed before:
       // replay its whole history in a fresh process in front of the suspect
@@ -648,7 +659,7 @@ static int cmd_check(std::map<std::string, std::string> & args)
     Plan small = sh.run(plan);
     small.hdr["origin"] = sp.suite + "#" + std::to_string(sp.idx) + "@seed" + std::to_string(seed);
     Outcome fin = run_fresh(small, ctx, to);
-    if (!(fin.violated() && fin.cls == a.cls)) { small = plan; fin = a; }
+    if (!(fin.violated() && (fin.cls == a.cls || (no_verdict(fin) && no_verdict(a))))) { small = plan; fin = a; }
     small.hdr["expect_cls"] = fin.cls;
     small.hdr["expect_prop"] = fin.prop;
     small.hdr["expect_sig"] = fin.sig;
@@ -660,7 +671,7 @@ static int cmd_check(std::map<std::string, std::string> & args)
     std::string rout = read_file(pth + ".out");
     Outcome ro; bool okparse = false;
     { std::istringstream in(rout); std::string l; while (std::getline(in, l)) if (l.rfind("OUTCOME ", 0) == 0) okparse = Outcome::parse_line(l.substr(8), ro); }
-    bool same = okparse && ro.violated() && ro.cls == fin.cls && ro.trace == fin.trace && ro.sig == fin.sig;
+    bool same = okparse && ro.violated() && same_observation(ro, fin);
     if (!same) {
       printf("HARNESS-NONDETERMINISM: replay of %s did not reproduce (exit %d): got [%s %s %s %llu] want [%s %s %s %llu]\n", pth.c_str(), st,
              ro.verdict.c_str(), ro.cls.c_str(), ro.sig.c_str(), (unsigned long long)ro.trace, fin.verdict.c_str(), fin.cls.c_str(),
